@@ -794,7 +794,25 @@ func (g *FnGen) loopFrameCond(li *loopInfo, fam, ref string) string {
 						alts = append(alts, fmt.Sprintf("(= %s (s-ref %s))", ref, v.T))
 					}
 				}
+				// p.f of map type also names the contents of that map
+				if u, isMap := typeUnder(v.GT).(*types.Map); isMap {
+					pf, _, vf, _ := g.mapFams2(u)
+					lf, _ := g.mapLenFam(u)
+					if fam == pf || fam == vf || fam == lf {
+						alts = append(alts, fmt.Sprintf("(= %s %s)", ref, v.T))
+					}
+				}
 			}
+		case *ECall:
+			if id, _ := l.Fn.(*EIdent); id != nil && len(l.Args) == 1 && (id.Name == "fieldsof" || id.Name == "elemsoftype") {
+				for _, f := range g.typeFrameFams(env, id.Name, l.Args[0]) {
+					if f == fam {
+						alts = append(alts, "true")
+					}
+				}
+				continue
+			}
+			g.unsupported("loop assigns: cannot interpret %s", exprString(c.E))
 		default:
 			v := env.tr(c.E)
 			switch u := typeUnder(v.GT).(type) {
